@@ -37,7 +37,7 @@ func VerifRunGC() {
 }
 
 // VerifLifetimes returns the session constants.
-func VerifLifetimes() (lifetime, extendThreshold time.Duration) {
+func VerifLifetimes() (lifetime, threshold time.Duration) {
 	return defaultLifetime, extendThreshold
 }
 
